@@ -272,10 +272,17 @@ def transitions(rep, prog, ws, tag):
                    "runtime state field `%s` is set to %s; wrapper means %s" % (field, [v for _, v, _ in stores], mode), loc=c.loc())
             # store only on the wrapper's Ok edge
             good, bad = decisive_edges(g, c, OK, ERR)
+            # ... or behind an edge on which the recorded mode already is the wrapper's mode (skipping the
+            # OS call when nothing would change leaves pages and record in agreement)
+            rec_ = rec_of(prog)
+            variants_ = rec_["protect_variants"] if kind == "protect" else rec_["lock_variants"]
+            already = mode_edges(g, field, variants_, mode, True) if mode in variants_ else []
             for bb, v, s in stores:
-                dominated = any(g.edge_dominates(e, bb) for e in good)
+                dominated = any(g.edge_dominates(e, bb) for e in good) or \
+                    (bool(good) and bb not in g.reachable(0, cut_edges=list(good) + list(already)))
                 rep.ob("MODE", inst + "|on-ok-only", dominated,
-                       "the state update %s the Ok edge of the wrapper call" % ("is dominated by" if dominated else "is NOT dominated by"),
+                       "the state update %s the Ok edge of the wrapper call%s" % ("is dominated by" if dominated else "is NOT dominated by",
+                                                                                  "" if dominated else " (nor by an edge on which the recorded mode already is %s)" % mode),
                        loc=g.loc(bb))
             # constructed value's marker = declared (Protected::<A, PM, LM>::new())
             for cc in g.calls():
